@@ -34,6 +34,7 @@ type recBlock struct {
 type recHistory struct {
 	Window, Check int64
 	NumAccounts   int
+	GenesisUnix   int64 // 0: the fixed genesis time; otherwise a genesis time chosen relative to the wall clock at recording
 	Blocks        []recBlock
 }
 
@@ -69,6 +70,14 @@ func flattenEvents(evs []abci.Event) []string {
 		out = append(out, sb.String())
 	}
 	return out
+}
+
+func historyGenesisAt(W, C int64, nAcc int, genesisUnix int64) chain.GenesisOpts {
+	o := historyGenesis(W, C, nAcc)
+	if genesisUnix != 0 {
+		o.Time = time.Unix(genesisUnix, 0).UTC()
+	}
+	return o
 }
 
 func historyGenesis(W, C int64, nAcc int) chain.GenesisOpts {
@@ -109,7 +118,7 @@ func replayHistoryNoisy(h *recHistory, noisy bool) ([]blockResult, *chain.Chain)
 			defer func() { time.Local = saved }()
 		}
 	}
-	c := chain.New(historyGenesis(h.Window, h.Check, h.NumAccounts))
+	c := chain.New(historyGenesisAt(h.Window, h.Check, h.NumAccounts, h.GenesisUnix))
 	var out []blockResult
 	noise := func(i, j int, raw []byte) {
 		if !noisy {
@@ -312,7 +321,15 @@ func buildHistory(rt *rapid.T, full bool) (*histBuilder, string) {
 	W := rapid.Int64Range(3, 5).Draw(rt, "window")
 	C := rapid.Int64Range(2, 5).Draw(rt, "check")
 	nAcc := 10
-	b := &histBuilder{c: chain.New(historyGenesis(W, C, nAcc)), rec: &recHistory{Window: W, Check: C, NumAccounts: nAcc}}
+	// One history in ten is anchored to the wall clock: its first block (where the price feed is stamped) lies a round
+	// span D minus three seconds in the past, so that an execution a few seconds later sees everything stamped in that
+	// block as "older than D" while this one sees it as younger. Block time is the only clock execution may consult.
+	var genesisUnix int64
+	if full && rapid.IntRange(0, 9).Draw(rt, "anchoredToWallClock") == 0 {
+		d := rapid.SampledFrom([]time.Duration{24 * time.Hour, 24 * time.Hour, time.Hour, 12 * time.Hour, 48 * time.Hour, 7 * 24 * time.Hour, 30 * 24 * time.Hour, 10 * time.Minute, 0}).Draw(rt, "span")
+		genesisUnix = time.Now().Add(-d).Unix() + 3 - 6 // the first block is 6 s after genesis
+	}
+	b := &histBuilder{c: chain.New(historyGenesisAt(W, C, nAcc, genesisUnix)), rec: &recHistory{Window: W, Check: C, NumAccounts: nAcc, GenesisUnix: genesisUnix}}
 	for i := 0; i < nAcc; i++ {
 		b.accs = append(b.accs, chain.Acc(i))
 	}
